@@ -23,6 +23,8 @@ type Val struct {
 	tuple  []*Val
 	loc    *Loc
 	mask   *big.Int // all set bits of the value lie within mask (unsigned values)
+	bfTerm string   // value == bfTerm * 2^bfLo where bfTerm is a BITS term
+	bfLo   int
 	clo    *ssa.MakeClosure
 	fn     *ssa.Function
 	frame  *Frame // frame that created a closure value
@@ -111,6 +113,8 @@ type VC struct {
 	oblCount map[string]int
 	seedInts []string
 	covers   []*Obl
+	seeded   map[string]bool
+	bitsExact bool
 }
 
 func newVC(eng *Engine, key string) *VC {
@@ -317,7 +321,9 @@ func (fr *Frame) load(l *Loc) *Val {
 		t = h
 	}
 	v := &Val{t: t, sort: sortOf(l.typ), typ: l.typ}
-	fr.assumeWF(v)
+	if !fr.eng.noWF || !hasBoundVar(t) {
+		fr.assumeWF(v)
+	}
 	return v
 }
 
@@ -399,6 +405,11 @@ func (fr *Frame) assumeWF(v *Val) {
 	case sIfc:
 		fr.vc.fact(and(app("<=", "0", iTag(v.t)), app("<=", "0", iVal(v.t)), app("<=", iVal(v.t), fr.st.alloc), implies(eq(iTag(v.t), "0"), eq(iVal(v.t), "0"))))
 	}
+}
+
+// hasBoundVar reports whether a term mentions a quantifier / binder variable.
+func hasBoundVar(t string) bool {
+	return strings.Contains(t, "!q") || strings.Contains(t, "!p") || strings.Contains(t, "ih!") || strings.Contains(t, "h!")
 }
 
 func (fr *Frame) havocVal(t types.Type, hint string) *Val {
